@@ -55,6 +55,14 @@ def c05(cases, res):
                 out.append(fail("cursor-out-of-range", case, i, "cursor=%d len=%d" % (cur, len(syms))))
             if len(lst(s.snap.get("gaps", ""))) != len(syms):
                 out.append(fail("gaps-length", case, i, s.raw_s[:300]))
+            # the saved cursors never leak (C05_saved_cursors_never_leak): none outside a candidate list or under the
+            # symbol table's list, at most one under a list that replaces
+            depth = len(lst(s.snap.get("stack", "")))
+            if state_of(s) != "Selecting" or s.snap.get("action") == "I":
+                if depth != 0:
+                    out.append(fail("saved-cursor-leaks", case, i, "state %s stack %s" % (state_of(s), s.snap.get("stack"))))
+            elif depth > 1:
+                out.append(fail("saved-cursor-leaks", case, i, "state %s stack %s" % (state_of(s), s.snap.get("stack"))))
             if prev is None or not is_key(s):
                 continue
             checked += 1
